@@ -800,6 +800,9 @@ class Spec:
     def glom(self, target, **kw):
         scope = dict(self.scope)
         scope.update(kw.get('scope', {}))
+        # NO_PYFRAME marks one level of the scope chain it was copied
+        # from; it says nothing about this flattened copy
+        scope.pop(NO_PYFRAME, None)
         kw['scope'] = ChainMap(scope)
         glom_ = scope.get(glom, glom)
         return glom_(target, self.spec, **kw)
